@@ -48,6 +48,15 @@ func drawEntries(t *rapid.T, kind string, n int) []*Entry {
 var unbalancedParts = []string{"(", ")", "[", "]", "CASE", "WHEN", "THEN", "END", "ELSE", "<", ">", ">>", "ARRAY<", "STRUCT<", "INT64", ",", "a", "1", "+", "AS", "FROM", "t",
 	"SELECT", "{", "}", ";", "UNION ALL", "x.y", "'s'", "/*c*/", "-", "@", "CAST(", "f(", "IN", "NOT", "BETWEEN", "AND", "IS", "NULL", ".", "*", "=>", "->", "|>", "WHERE", "GROUP BY", "ORDER BY", "LIMIT", "OFFSET", "AT", "HAVING", "INTERSECT DISTINCT", "EXCEPT ALL"}
 
+// brokenFragments: statements / expressions that fail in different places (query suffix, select list, expression, type, DDL, DML,
+// lexical errors of every kind, unclosed brackets), with literal-only and identifier select lists.
+var brokenFragments = []string{
+	"SELECT 1 LIMIT", "SELECT 2 LIMIT 'x", "SELECT 1 ORDER BY", "SELECT 'a' ORDER BY \"b", "SELECT 1 UNION ALL", "SELECT 1 UNION ALL SELECT 1a", "SELECT 1 |>", "SELECT 1.5 |> LIMIT 0x",
+	"SELECT a FROM t LIMIT", "(SELECT 1) LIMIT `", "SELECT 1 +", "SELECT (1 +)", "SELECT f(", "SELECT a b c", "SELECT * FROM", "SELECT * FROM t WHERE", "SELECT CAST(1 AS",
+	"SELECT ARRAY<", "SELECT STRUCT<1>", "1 +", "(1, (2", "a[", "x IN (", "CASE WHEN", "NEW T {a:", "'abc", "\"\\x", "0x", "1a", "/*", "`", "$", "\x00",
+	"CREATE TABLE", "CREATE TABLE t (a", "DROP", "ALTER TABLE t ADD", "INSERT INTO t (a) VALUES (1 +)", "UPDATE t SET", "DELETE t", "CALL f(", "@{a=(1 +)} SELECT 1", "SELECT 1", "SELECT a FROM t",
+}
+
 // runStreams drives fn over the shared error-rich input streams.
 func runStreams(ctx *harness.Ctx, o streamOpts, fn func(t harness.T, leg string, e *Entry, src string)) {
 	all := func(t harness.T, leg, src string) {
@@ -64,6 +73,13 @@ func runStreams(ctx *harness.Ctx, o streamOpts, fn func(t harness.T, leg string,
 			ctx.Exhaustive(fmt.Sprintf("all strings of length <=%d over the 24-symbol lexical alphabet x 9 parser entry points", o.shortLen), ctx.ViolationCount() == 0)
 		})
 	}
+	ctx.Leg("error-sites", func() {
+		for i, src := range errorSiteVariants() {
+			if i%ctx.Of == ctx.Shard {
+				all(nil, "error-sites", src)
+			}
+		}
+	})
 	ctx.Leg("hostile-fixed", func() {
 		idx := 0
 		for _, h := range mutate.Hostile {
@@ -74,6 +90,27 @@ func runStreams(ctx *harness.Ctx, o streamOpts, fn func(t harness.T, leg string,
 					continue
 				}
 				all(nil, "hostile-fixed", src)
+			}
+		}
+	})
+	// pairs of broken fragments: state left behind by one recovery (snapshots, counters, pooled buffers) meets the next one.
+	// Every ordered pair of the pool, joined as two statements, two list elements or two operands.
+	ctx.Leg("broken-pairs", func() {
+		idx := 0
+		for _, f1 := range brokenFragments {
+			for _, f2 := range brokenFragments {
+				for _, join := range []string{"; ", ", ", "\n;\n"} {
+					idx++
+					if idx%ctx.Of != ctx.Shard {
+						continue
+					}
+					src := f1 + join + f2
+					for _, e := range entries {
+						if e.List || idx%3 == 0 {
+							fn(nil, "broken-pairs", e, src)
+						}
+					}
+				}
 			}
 		}
 	})
@@ -114,6 +151,9 @@ func runStreams(ctx *harness.Ctx, o streamOpts, fn func(t harness.T, leg string,
 		}
 		if len(src) > 4096 {
 			src = src[:4096]
+		}
+		if fp := farPrefix(t, 400, true); fp != "" {
+			src = fp + src
 		}
 		ctx.Sample(map[string]any{"leg": "mutant", "input": q(trunc(src, 300))})
 		for _, e := range drawEntries(t, kind, o.entriesPerSrc) {
